@@ -7,6 +7,7 @@ open VibeProof VibeProof.Proto VibeProof.Codec VibeProof.Dml
 `(updparent noaction|cascade|setnull (cols…) (pcols…) (children R…) P P')` → same
 `(inschild (cols…) (pcols…) (parents R…) C)` → `(accept)` | `(reject)`
 `(selfdel (cols…) (pcols…) (rows R…) i)` → `(ok (R…))`
+`(trunc (fks …) (tables (R…)…) t)` → `(ok (R…)…)` | `(cycle)` | `(fuel)`: TRUNCATE TABLE t CASCADE
 `(casc (fks (child parent (cols…) (pcols…) action)…) (tables (R…)…) t (sel V…))` → `(ok (R…)…)` | `(reject)` | `(fuel)`:
   whole DELETE of the rows of table t whose first column is in `sel`, recursive cascade, fuel = rows + tables + 1
 -/
@@ -54,6 +55,19 @@ def handle : List Sx → Sx
       | .error .reject => .list [.atom "reject"]
       | .error .fuel => .list [.atom "fuel"]
     | _, _, _, _ => .atom "bad-request"
+  | [.atom "trunc", .list (.atom "fks" :: fs), .list (.atom "tables" :: ts), t] =>
+    let decFk : Sx → Option FkDecl
+      | .list [c, p, cols, pcols, .atom a] => do
+        pure { child := ← c.nat?, parent := ← p.nat?, cols := ← nats cols, pcols := ← nats pcols, onDelete := ← decAction a }
+      | _ => none
+    match fs.mapM decFk, ts.mapM decRows, t.nat? with
+    | some fks, some tabs, some t =>
+      let db : Db := fun i => tabs.getD i []
+      match truncateCascade fks (List.range tabs.length) (tabs.length + 1) db t with
+      | .ok db' => .list (.atom "ok" :: (List.range tabs.length).map (fun i => encRows (db' i)))
+      | .error .cycle => .list [.atom "cycle"]
+      | .error .fuel => .list [.atom "fuel"]
+    | _, _, _ => .atom "bad-request"
   | _ => .atom "bad-request"
 
 def main : IO Unit := runDriver handle
